@@ -3,11 +3,23 @@
 import json, os
 VERIF = os.path.dirname(os.path.dirname(os.path.abspath(__file__)))
 HOOK_COMMITS = ["a41b6df"]
+T_TEXT = ("The harness drives the real code with seeded random configurations in real regex syntax, random inputs and random call histories, "
+          "logs every public call with its arguments and result, and TLC decides whether the log is a behaviour of the TLA+ specification "
+          "(Trace_Api over ScannerApi/Tokenizer/RegexSem); ")
+G_TEXT = ("TLC enumerates all behaviours of the user-level specification (ScannerApi/Tokenizer/RegexSem) inside small bounds "
+          "(pattern universe, input length, history depth) and each behaviour is replayed through the public API and compared result by result; ")
+NOTE = "bounded worlds / sampled random histories; harness concretisation, atom computation and regex printer; regex-syntax parser; TLC and its Json module"
+TECH = "TLA+ spec (ScannerApi) + TLC: generated behaviours replayed into the code, recorded executions validated by TLC"
 CHECKS = {
- "C01": ("model_checking", "5 C01",
-   "TLC enumerates all behaviours of the user-level specification (ScannerApi/Tokenizer/RegexSem) for every pattern set of a small regex universe and every input up to a length bound; each behaviour is replayed through the public API and compared result by result.",
-   "bounded pattern universe/input length; harness concretisation of atoms and regex printer; regex-syntax parser; TLC",
-   "TLA+ spec (ScannerApi) + TLC-generated behaviours replayed into the code"),
+ "C01": ("model_checking", "5 C01", G_TEXT + "modes without lookahead: longest match, priority, skipping, byte spans.", NOTE, TECH),
+ "C04": ("model_checking", "5 C04", T_TEXT + "modes mixing positive, negative and no lookaheads, with with_offset/set_offset.", NOTE, TECH),
+ "C05": ("model_checking", "5 C05", T_TEXT + "modes with two or more patterns and lookaheads: the reported token must be a member of Tokenizer!Best (maximal extent, then first pattern); a panic is an unexplained event.", NOTE, TECH),
+ "C06": ("model_checking", "5 C06", T_TEXT + "random mode graphs, set_mode on iterators and scanners, new iterators; current_mode() is compared after every call.", NOTE, TECH),
+ "C07": ("model_checking", "5 C07", T_TEXT + "hostile configurations (nullable patterns, 1-4 byte characters, empty inputs), calls after exhaustion; WellFormed/Progress are invariants of the specification and every logged token must be one the specification allows.", NOTE, TECH),
+ "C09": ("model_checking", "5 C09", T_TEXT + "WithPositions iterators, position queries for scanned offsets, resets to earlier offsets, exhaustion.", NOTE, TECH),
+ "C10": ("model_checking", "5 C10", T_TEXT + "with_offset/set_offset to every kind of boundary, peek_n + advance_to, set_mode.", NOTE, TECH),
+ "C11": ("model_checking", "5 C11", T_TEXT + "peek_n(n) at random points of random histories; token list, classification, target mode and purity (later calls) are checked.", NOTE, TECH),
+ "C12": ("model_checking", "5 C12", T_TEXT + "up to five interleaved iterators over one scanner, scanner-level set_mode, cached and uncached builds.", NOTE, TECH),
 }
 NOT_YET = {
 }
